@@ -3,6 +3,7 @@ package checks
 import (
 	"math"
 	"math/big"
+	"sort"
 	"strconv"
 
 	"github.com/trajectoryjp/spatial_id_go/v4/common/object"
@@ -20,6 +21,10 @@ type CaseC17 struct {
 	OutV     int64 // backward: output vertical zoom
 	Min, Max F64   // height range
 	Spatial  bool  // forward through the single-zoom API (h = v)
+	// Others: forward, extended form only: further voxels of the same column (vertical zoom, index) converted in the same
+	// call; MainFirst lists the main voxel before them, otherwise after them
+	Others    [][2]int64 `json:",omitempty"`
+	MainFirst bool       `json:",omitempty"`
 }
 
 func genRange(t *rapid.T) (float64, float64) {
@@ -85,6 +90,37 @@ func genC17(t *rapid.T) *CaseC17 {
 		// bound the run length computed from the reference before the library is ever called
 		for c.Z > 0 && c17Run(c) > 4096 {
 			c.Z--
+		}
+		if !c.Spatial && rapid.IntRange(0, 2).Draw(t, "list") == 0 {
+			// other voxels of the same column: parts of the main voxel at its ends, its parent, neighbours, copies
+			for i := rapid.IntRange(1, 3).Draw(t, "nOthers"); i > 0; i-- {
+				k := rapid.Int64Range(1, 4).Draw(t, "ok")
+				var o [2]int64
+				switch rapid.IntRange(0, 5).Draw(t, "okind") {
+				case 0: // lowest descendant
+					o = [2]int64{c.V + k, c.F << uint(k)}
+				case 1: // highest descendant
+					o = [2]int64{c.V + k, ((c.F + 1) << uint(k)) - 1}
+				case 2: // ancestor
+					o = [2]int64{c.V - k, c.F >> uint(k)}
+				case 3:
+					o = [2]int64{c.V, c.F + rapid.Int64Range(-2, 2).Draw(t, "odf")}
+				case 4: // a descendant somewhere inside
+					o = [2]int64{c.V + k, (c.F << uint(k)) + rapid.Int64Range(0, (1<<uint(k))-1).Draw(t, "oin")}
+				default:
+					o = [2]int64{c.V, c.F}
+				}
+				if o[0] < 0 || o[0] > 35 || o[1] < -(int64(1)<<uint(o[0])) || o[1] >= int64(1)<<uint(o[0]) {
+					continue
+				}
+				oc := *c
+				oc.V, oc.F, oc.Others = o[0], o[1], nil
+				if c17Run(&oc) > 4096 {
+					continue
+				}
+				c.Others = append(c.Others, o)
+			}
+			c.MainFirst = rapid.IntRange(0, 3).Draw(t, "mainFirst") == 0
 		}
 		return c
 	}
@@ -207,6 +243,10 @@ func classifyC17(c *CaseC17) (bool, []string) {
 		if c.Spatial {
 			cl = append(cl, "spatial-api")
 		}
+		if len(c.Others) > 0 {
+			nt = true
+			cl = append(cl, "several-voxels-of-one-column")
+		}
 	} else {
 		cl = append(cl, "backward")
 		cell := (mx - mn) / math.Ldexp(1, int(c.Z))
@@ -317,6 +357,76 @@ func checkC17(c *CaseC17, fl *Fails) {
 			}
 			if !same {
 				fl.Add("result-retention", "%s: the result of the call changed after a later conversion of another voxel: %v -> %v", desc, got, after)
+			}
+		}
+		// several voxels of one column in one call: the vertical IDs of the column are the union of the runs of the
+		// voxels converted one by one (each of which is compared with the reference by its own case)
+		if len(c.Others) > 0 && !c.Spatial {
+			union := map[int64]struct{}{}
+			for _, g := range got {
+				union[g] = struct{}{}
+			}
+			var ids []string
+			okAll := true
+			for _, o := range c.Others {
+				oc := *c
+				oc.V, oc.F, oc.Others = o[0], o[1], nil
+				if c17Run(&oc) > 10000 {
+					okAll = false
+					break
+				}
+				id := ref.Box{H: h, X: x, Y: y, V: o[0], F: o[1]}.Ext()
+				ids = append(ids, id)
+				gs, e := transform.ConvertExtendedSpatialIDsToQuadkeysAndVerticalIDs([]string{id}, h, c.Z, mx, mn)
+				if e != nil {
+					okAll = false
+					break
+				}
+				for _, g := range gs {
+					for _, p := range g.InnerIDList() {
+						union[p[1]] = struct{}{}
+					}
+				}
+			}
+			if okAll {
+				main := ref.Box{H: h, X: x, Y: y, V: c.V, F: c.F}.Ext()
+				if c.MainFirst {
+					ids = append([]string{main}, ids...)
+				} else {
+					ids = append(ids, main)
+				}
+				gs, e := transform.ConvertExtendedSpatialIDsToQuadkeysAndVerticalIDs(ids, h, c.Z, mx, mn)
+				if e != nil {
+					fl.Add("forward-list-error", "%s: list %v: %v", desc, ids, e)
+				} else {
+					gotL := map[int64]int{}
+					for _, g := range gs {
+						for _, p := range g.InnerIDList() {
+							if p[0] != qk {
+								fl.Add("forward-quadkey", "%s: list %v: quadkey %d, expected %d", desc, ids, p[0], qk)
+							}
+							gotL[p[1]]++
+						}
+					}
+					var missing, extra, twice []int64
+					for k := range union {
+						if gotL[k] == 0 {
+							missing = append(missing, k)
+						}
+					}
+					for k, n := range gotL {
+						if _, ok := union[k]; !ok {
+							extra = append(extra, k)
+						}
+						if n > 1 {
+							twice = append(twice, k)
+						}
+					}
+					if len(missing)+len(extra)+len(twice) > 0 {
+						sort.Slice(missing, func(i, j int) bool { return missing[i] < missing[j] })
+						fl.Add("forward-list-union", "%s: converting %v in one call: vertical IDs missing %v, unexpected %v, repeated %v compared with the voxels converted one by one", desc, ids, missing, extra, twice)
+					}
+				}
 			}
 		}
 		last := (int64(1) << uint(c.Z)) - 1
